@@ -230,4 +230,227 @@ theorem lambda_decode_eq (msg : List UInt8) (off : Nat) (data : V) (hd : dataOk 
           simp [suppress_enum, decLambda, readByte, hb, hn, hr, hc, mergeF2, fieldV2, fieldV, recordV, scalarV, Val.nat, Val.ratio]
           omega
 
+/-! ### frame versions -/
+
+/-- the exception of a version slot cut short: no frame-type byte (`message[self._offset]`: IndexError), the `<H` cut
+(`struct.error`) -/
+def verErr (len off : Nat) : PyErr := if len - off = 0 then .IndexError else .StructError
+
+/-- the `(frame type, version)` pair `_unpack_frame_versions` answers -/
+def verV (p : Nat × Nat) : V := .tuple [.int (p.1 : Int), .int (p.2 : Int)]
+
+/-- **`_unpack_frame_versions`**: the frame-type byte at `self._offset` (it stays the NUMBER whether or not it is a
+`FrameType`) and the `<H` after it; `self._offset` advanced by 3 -/
+theorem unpack_version_eq (c : String) (ks : List String) (vs : List V) (msg : List UInt8) (off : Nat) :
+    PyCode.FrameVersionsStructure_unpack_frame_versions (withOff c ks vs off) (.bytes msg)
+      = match decVersion (msg.drop off) with
+        | none => .error (verErr msg.length off)
+        | some (tv, _) => .ok (verV tv, withOff c ks vs (off + 3)) := by
+  unfold PyCode.FrameVersionsStructure_unpack_frame_versions
+  have hl : (msg.drop off).length = msg.length - off := List.length_drop
+  have h0 : msg[off]? = (msg.drop off)[0]? := by simp
+  have h1 : msg.drop (off + 1) = (msg.drop off).drop 1 := by rw [List.drop_drop]
+  simp only [getattr_withOff, bind_ok, index_bytes_nat, add_int', cast_add_one, from_bytes_u16, h0, h1, decVersion, Option.bind_eq_bind]
+  revert hl
+  generalize msg.drop off = d
+  intro hl
+  match d with
+  | [] =>
+    have : msg.length - off = 0 := by have := hl; simp only [List.length_nil] at this; omega
+    simp [bind_err, readByte, verErr, this]
+  | t :: d1 =>
+    have hne : ¬ msg.length - off = 0 := by have := hl; simp only [List.length_cons] at this; omega
+    simp only [List.getElem?_cons_zero, bind_ok, List.drop_succ_cons, List.drop_zero, readByte, Option.bind_some]
+    cases hr : readLE 2 d1 with
+    | none => simp [bind_err, verErr, hne]
+    | some p =>
+      obtain ⟨v, r⟩ := p
+      have e : ((off : Int) + (((2 : Nat) : Int) + 1)) = ((off + 3 : Nat) : Int) := by omega
+      simp only [bind_ok, getattr_wire_size, getattr_wire_value, add_int', e, setattr_withOff, byteV_nat, suppress_enum, Option.bind_some]
+      simp [verV, pure_eq_ok, suppress_enum]
+
+theorem decVersion_some (s : List UInt8) (tv : Nat × Nat) (r : List UInt8) (h : decVersion s = some (tv, r)) : r = s.drop 3 := by
+  match s with
+  | [] => simp [decVersion, readByte] at h
+  | t :: d1 =>
+    simp only [decVersion, readByte, Option.bind_eq_bind, Option.bind_some, readLE, takeN] at h
+    by_cases h2 : d1.length < 2 <;> simp [h2] at h
+    simp [← h.2]
+
+theorem version_fold (c : String) (ks : List String) (vs : List V) (msg : List UInt8)
+    (body : V → V × V → PyM (V × V))
+    (hstep : ∀ (x : V) (off : Nat) (acc : List V), body x (.list acc, withOff c ks vs off) =
+      match decVersion (msg.drop off) with
+      | none => .error (verErr msg.length off)
+      | some (tv, _) => .ok (.list (acc ++ [verV tv]), withOff c ks vs (off + 3)))
+    (xs : List V) (off : Nat) (acc : List V) :
+    List.foldlM (fun s x => body x s) (V.list acc, withOff c ks vs off) xs
+      = match decN decVersion xs.length (msg.drop off) with
+        | none => .error (verErr msg.length (off + 3 * (decFail decVersion xs.length (msg.drop off))))
+        | some (ps, _) => .ok (.list (acc ++ ps.map verV), withOff c ks vs (off + 3 * xs.length)) := by
+  induction xs generalizing off acc with
+  | nil => simp [decN]
+  | cons x xs ih =>
+    rw [List.foldlM_cons, hstep]
+    simp only [List.length_cons]
+    unfold decN decFail
+    cases hd : decVersion (msg.drop off) with
+    | none => simp [bind_err]
+    | some p =>
+      obtain ⟨tv, r⟩ := p
+      have hr := decVersion_some _ _ _ hd
+      simp only [bind_ok, ih, Option.bind_eq_bind, Option.bind_some, hr, List.drop_drop]
+      cases hN : decN decVersion xs.length (msg.drop (off + 3)) with
+      | none =>
+        have e1 : off + 3 + 3 * decFail decVersion xs.length (msg.drop (off + 3)) = off + 3 * (decFail decVersion xs.length (msg.drop (off + 3)) + 1) := by omega
+        simp [e1]
+      | some q =>
+        obtain ⟨ps, r'⟩ := q
+        have e1 : off + 3 + 3 * xs.length = off + 3 * (xs.length + 1) := by omega
+        simp [e1]
+
+/-! `dict(pairs)` of the translated code against the model's `assocOf` -/
+
+def keysV (a : List (Nat × Nat)) : List V := a.map fun p => V.int (p.1 : Int)
+def valsV (a : List (Nat × Nat)) : List V := a.map fun p => V.int (p.2 : Int)
+
+theorem mapSet_assoc (acc : List (Nat × Nat)) (k v : Nat) :
+    Py.mapSet (keysV acc) (valsV acc) (.int (k : Int)) (.int (v : Int)) = .ok (keysV (assocSet acc k v), valsV (assocSet acc k v)) := by
+  induction acc with
+  | nil => simp [Py.mapSet, keysV, valsV, assocSet]
+  | cons p acc ih =>
+    obtain ⟨k', v'⟩ := p
+    by_cases hk : k' = k
+    · subst hk
+      simp [Py.mapSet, keysV, valsV, assocSet, Py.eqB, asInt?]
+    · have hne : ((k' : Int) == (k : Int)) = false := by simp; omega
+      have hne' : (k' == k) = false := by simpa using hk
+      simp only [keysV, valsV] at ih
+      simp [Py.mapSet, keysV, valsV, assocSet, Py.eqB, asInt?, hne, hne', ih]
+
+theorem fold_assoc (ps acc : List (Nat × Nat)) :
+    (ps.map verV).foldlM Py.dictStep (keysV acc, valsV acc)
+      = .ok (keysV (assocMerge acc ps), valsV (assocMerge acc ps)) := by
+  induction ps generalizing acc with
+  | nil => simp [assocMerge]
+  | cons p ps ih =>
+    simp only [List.map_cons, List.foldlM_cons, verV, Py.dictStep, mapSet_assoc, ok_bind]
+    rw [ih]
+    simp [assocMerge]
+
+/-- `dict(self._unpack_frame_versions(message) for _ in range(n))`: the model's `versionsVal` (last duplicate wins, first
+position kept) as a Python dict with int keys -/
+theorem dict_versions (ps : List (Nat × Nat)) : Py.dict_ (.list (ps.map verV)) = .ok (fieldV (versionsVal ps)) := by
+  have hf := fold_assoc ps []
+  unfold Py.dict_
+  simp only [Py.iter, pure_eq_ok, ok_bind]
+  have e0 : (([] : List V), ([] : List V)) = (keysV [], valsV []) := rfl
+  rw [e0, hf]
+  simp only [ok_bind, versionsVal, Val.intDict, assocOf]
+  cases assocMerge [] ps with
+  | nil => rfl
+  | cons a r =>
+    obtain ⟨k, v⟩ := a
+    simp [keysV, valsV, strKeys, fieldV, pairKeyV, pairValV, recordV, scalarV, Val.nat]
+
+/-- **`FrameVersionsStructure.decode(message, offset, data)`** on ANY instance, for every message: count byte, then `count`
+slots of 3 bytes; the dict of versions by frame type (`versionsVal`: a later duplicate overwrites, unknown types kept as
+numbers); the returned offset `offset + 1 + 3·count`, left on the instance as well; the exception class by the slot cut -/
+theorem frame_versions_decode_eq (c : String) (ks : List String) (vs : List V) (msg : List UInt8) (off : Nat) (data : V)
+    (hd : dataOk data) :
+    PyCode.FrameVersionsStructure_decode (.obj c ks vs) (.bytes msg) (.int (off : Int)) data
+      = match msg.drop off with
+        | [] => .error .IndexError
+        | nb :: r =>
+          match decN decVersion nb.toNat r with
+          | none => .error (verErr msg.length (off + 1 + 3 * decFail decVersion nb.toNat r))
+          | some (ps, _) =>
+            let o := off + 1 + 3 * nb.toNat
+            .ok (.tuple [merge1 data ["frame_versions"] [fieldV (versionsVal ps)], .int (o : Int)], withOff c ks vs o) := by
+  unfold PyCode.FrameVersionsStructure_decode
+  have h0 : msg[off]? = (msg.drop off)[0]? := by simp
+  have h1 : msg.drop (off + 1) = (msg.drop off).drop 1 := by rw [List.drop_drop]
+  simp only [index_bytes_nat, add_int', cast_add_one, bind_ok, h0]
+  generalize hm : msg.drop off = d
+  match d with
+  | [] => simp [bind_err]
+  | nb :: r =>
+    have hr : msg.drop (off + 1) = r := by rw [h1, hm]; rfl
+    simp only [List.getElem?_cons_zero, bind_ok, byteV_nat, setattr_obj, range_zero, forLoop_list]
+    rw [version_fold c ks vs msg]
+    · have hlen : (rangeV 0 nb.toNat).length = nb.toNat := by simp [rangeV]
+      simp only [hlen, hr]
+      cases hN : decN decVersion nb.toNat r with
+      | none => simp [bind_err]
+      | some p =>
+        obtain ⟨ps, r3⟩ := p
+        simp only [bind_ok, List.nil_append, dict_versions, ensure_dict_eq _ hd, getattr_withOff]
+        rfl
+    · intro x off acc
+      simp only [unpack_version_eq]
+      cases hd : decVersion (msg.drop off) with
+      | none => rfl
+      | some p => obtain ⟨tv, r⟩ := p; simp [bind_ok]
+
+/-- the exception class of a frame-versions section cut short -/
+def fvErr (msg : List UInt8) (off : Nat) : PyErr :=
+  match msg.drop off with
+  | [] => .IndexError
+  | nb :: r => verErr msg.length (off + 1 + 3 * decFail decVersion nb.toNat r)
+
+/-- **`FrameVersionsStructure.decode` against `Sens.decFrameVersions`** in ONE statement (the RESULT; the instance is in
+`frame_versions_decode_eq`) -/
+theorem frame_versions_decode_model (c : String) (ks : List String) (vs : List V) (msg : List UInt8) (off : Nat) (data : V)
+    (hd : dataOk data) :
+    (PyCode.FrameVersionsStructure_decode (.obj c ks vs) (.bytes msg) (.int (off : Int)) data).map (·.1)
+      = match readByte (msg.drop off), decFrameVersions (msg.drop off) with
+        | some (n, _), some (fs, _) => .ok (.tuple [mergeF data fs, .int ((off + 1 + 3 * n.toNat : Nat) : Int)])
+        | _, _ => .error (fvErr msg off) := by
+  rw [frame_versions_decode_eq c ks vs msg off data hd]
+  unfold fvErr decFrameVersions
+  generalize msg.drop off = d
+  match d with
+  | [] => simp [readByte]; rfl
+  | nb :: r =>
+    simp only [readByte, Option.bind_eq_bind, Option.bind_some]
+    cases hN : decN decVersion nb.toNat r with
+    | none => simp; rfl
+    | some p => obtain ⟨ps, r3⟩ := p; simp [mergeF, Except.map]
+
+theorem decN_version_rest (n : Nat) (s : List UInt8) (ps : List (Nat × Nat)) (r : List UInt8)
+    (h : decN decVersion n s = some (ps, r)) : r = s.drop (3 * n) := by
+  induction n generalizing s ps r with
+  | zero => simp [decN] at h; simp [h.2]
+  | succ n ih =>
+    unfold decN at h
+    cases hd : decVersion s with
+    | none => simp [hd] at h
+    | some p =>
+      obtain ⟨tv, r1⟩ := p
+      have hr := decVersion_some _ _ _ hd
+      cases hN : decN decVersion n r1 with
+      | none => simp [hd, hN] at h
+      | some q =>
+        obtain ⟨ps', r2⟩ := q
+        simp [hd, hN] at h
+        have := ih _ _ _ hN
+        rw [← h.2, this, hr, List.drop_drop]
+        congr 1; omega
+
+/-- the model's remainder is the message from the returned offset on -/
+theorem frame_versions_rest (s : List UInt8) (n : UInt8) (r0 : List UInt8) (fs : VFields) (r : List UInt8)
+    (hn : readByte s = some (n, r0)) (h : decFrameVersions s = some (fs, r)) : r = s.drop (1 + 3 * n.toNat) := by
+  match s with
+  | [] => simp [readByte] at hn
+  | b :: s' =>
+    simp [readByte] at hn
+    simp only [decFrameVersions, readByte, Option.bind_eq_bind, Option.bind_some] at h
+    cases hN : decN decVersion b.toNat s' with
+    | none => simp [hN] at h
+    | some q =>
+      obtain ⟨ps, r2⟩ := q
+      simp [hN] at h
+      have := decN_version_rest _ _ _ _ hN
+      rw [← h.2, this, ← hn.1, Nat.add_comm 1, List.drop_succ_cons]
+
 end PlumVerif.TieStructSections2
